@@ -60,3 +60,25 @@ PROPERTIES["C14"] = {
     "outside": ["inputs longer than 3 bytes in round trips", "whole encode->RLE->decode chain with symbolic content (memory)", "RLE round trip beyond 2 bytes"],
     "assumptions": ["k_rle_stage_total_*: delta stage stubbed (decided separately)", "k_rle_guard_*: bitfield_rle::decode and delta stage stubbed (only the guard is exercised)"],
 }
+
+
+# ------------------------------------------------------------------------------------------------
+BUILDS["proto"] = {"files": ["network__protocol.rs", "network__protocol@b.rs"], "consts": {"PENDING_OUTPUT_SIZE": 4}}
+
+U_TIMERS = [H(n, "proto", mem=8) for n in ["u_poll_interrupt_timer", "u_poll_disconnect_timer", "u_poll_both_in_order",
+            "u_poll_interrupt_payload_default", "u_poll_interrupt_payload_zero", "u_poll_interrupt_payload_saturating", "u_poll_interrupt_payload_one"]]
+U_LIVENESS = [H(n, "proto", mem=8) for n in ["u_foreign_magic_ignored", "u_liveness_and_resume"]]
+U_MALFORMED = [H(n, "proto", mem=8) for n in ["u_input_wrong_status_count_dropped", "u_input_negative_start_dropped"]]
+U_LOSTACK = [H(n, "proto", mem=8) for n in names_in("network__protocol@b.rs", "u_lost_ack_reply_.*")]
+U_STREAM_Q = [H(n, "proto", timeout=600, mem=14) for n in names_in("network__protocol@b.rs", "u_on_input_stream_.*_k1")] + \
+             [H("u_on_input_stream_l5_s7_k2", "proto", mem=8), H("u_input_ack_content", "proto", timeout=600, mem=10),
+              H("u_ack_releases_prefix", "proto", mem=8), H("u_send_input_packet_shape", "proto", mem=8)]
+U_STREAM_T = [H(n, "proto", tier="thorough", timeout=3000, mem=44) for n in
+              ["u_on_input_stream_l5_s5_k2", "u_on_input_first_packet_s0", "u_on_input_first_packet_s2"]]
+
+PROPERTIES["C05"] = {
+    "level": "model_checking",
+    "harnesses": U_LOSTACK + U_STREAM_Q + U_STREAM_T,
+    "claim": "TODO",
+    "note": "TODO",
+}
